@@ -30,6 +30,18 @@ REL = {
     "22": ["C15", "C16", "C03"],
     "23": ["C13"],
     "24": ["C13"],
+    "25": ["C01", "C02", "C09", "C05", "C03", "C15"],
+    "26": ["C06", "C07", "C08", "C03", "C15"],
+    "27": ["C06", "C20", "C03", "C09", "C15"],
+    "28": ["C04", "C05", "C20", "C14", "C03", "C15"],
+    "29": ["C10", "C11", "C12", "C03", "C15"],
+    "30": ["C12", "C10", "C18", "C15"],
+    "31": ["C19", "C17", "C20", "C03", "C15"],
+    "32": ["C19", "C20", "C03", "C16", "C15"],
+    "33": ["C17", "C16", "C03", "C02", "C06", "C19", "C20", "C15"],
+    "34": ["C15", "C16", "C03", "C19", "C20"],
+    "35": ["C13"],
+    "36": ["C13"],
 }
 
 
